@@ -763,25 +763,18 @@ def _cutoff(r, fi, ps, F):
         r.violation(construct, 'perform_summation is called without a cutoff: the default 1e3 is used whatever the configuration says',
                     lib.loc(fi, ps))
         return
-    if isinstance(arg, ast.Name):
-        stmts = [s for s in walk_own(fn) if isinstance(s, ast.If) and arg.id in X.assigned_names(s)
-                 and not any(isinstance(a, ast.If) and a is not s and X.in_subtree(s, a) for a in walk_own(fn))]
-        plain = [s for s in walk_own(fn) if isinstance(s, ast.Assign) and arg.id in X.assigned_names(s)
-                 and not any(X.in_subtree(s, i) for i in stmts)]
-        if len(stmts) == 1 and not plain:
-            env = lib.local_env(fn)
-            pre = [ast.Assign(targets=[ast.Name(id=n, ctx=ast.Store())], value=env[n], lineno=0)
-                   for n in sorted(X.names_loaded(stmts[0].test)) if n in env and n != arg.id]
-            paths = nf.decision_paths(pre + [stmts[0]])
-            value = lambda p: p.leaf.env.get(arg.id) if p.leaf.kind == 'fall' else None
-        elif not stmts and len(plain) == 1:
-            paths = nf.decision_paths([_split_ifexp(ast.Assign(targets=plain[0].targets, value=lib.inline_locals(plain[0].value, fn)))])
-            value = lambda p: p.leaf.env.get(arg.id)
-        else:
-            raise AnalysisError('evaluate_sum: assignments of the cutoff `%s` not recognised' % arg.id)
-    else:
-        paths = nf.decision_paths([_split_ifexp(ast.Assign(targets=[ast.Name(id='$cutoff', ctx=ast.Store())], value=arg))])
-        value = lambda p: p.leaf.env.get('$cutoff')
+    # read the whole function as a decision tree (locals substituted forward) and look at the returning paths only: their
+    # guards are the cutoff decision plus the negations of the refusals, which do not concern this clause
+    paths = [p for p in nf.decision_paths(fn.body) if p.leaf.kind == 'ret']
+
+    def value(p):
+        calls = [c for c in ast.walk(p.leaf.expr) if isinstance(c, ast.Call) and nf.callee_name(c) == 'perform_summation']
+        if len(calls) != 1:
+            return None
+        v = lib.get_kw(calls[0], 'infty_val', 4)
+        while isinstance(v, ast.IfExp):
+            return v                    # resolved by the caller
+        return v
 
     def member(e):
         """'fact'/'factorial' if e is `'<name>' in F`."""
@@ -821,14 +814,40 @@ def _cutoff(r, fi, ps, F):
     # Venn regions of the used-function set with respect to {fact, factorial} (+ an unrelated name)
     for used in (frozenset(), frozenset(['other']), frozenset(['fact']), frozenset(['factorial']), frozenset(['fact', 'factorial']),
                  frozenset(['fact', 'other']), frozenset(['factorial', 'other'])):
-        sel = X.select_paths(paths, guards, {'used': used})
-        if len(sel) != 1:
-            raise AnalysisError('cutoff decision paths are not exclusive')
-        v = value(sel[0])
-        key = nf.config_key(v) if v is not None else None
+        w = {'used': used}
+        sel = []
+        for p in paths:
+            ok = True
+            for g in p.guards:
+                try:
+                    if not guards.compile(g)(w):
+                        ok = False
+                        break
+                except X.Unrecognised:
+                    continue            # a refusal test (complex / non-integer / in scope): irrelevant for the cutoff
+            if ok:
+                sel.append(p)
+        vals = []
+        for p in sel:
+            v = value(p)
+            while isinstance(v, ast.IfExp):
+                v = v.body if guards.compile(nf.canon(v.test))(w) else v.orelse
+            if isinstance(v, ast.Subscript) and isinstance(v.slice, ast.IfExp) and lib.is_config(
+                    ast.Subscript(value=v.value, slice=ast.Constant(value='x'), ctx=ast.Load())):
+                sl = v.slice
+                while isinstance(sl, ast.IfExp):
+                    sl = sl.body if guards.compile(nf.canon(sl.test))(w) else sl.orelse
+                v = ast.Subscript(value=v.value, slice=sl, ctx=ast.Load())
+            vals.append(v)
+        keys = {nf.config_key(v) if v is not None else None for v in vals}
+        if len(keys) != 1 or None in keys:
+            raise AnalysisError('evaluate_sum: the cutoff handed to perform_summation is not recognised (%s)'
+                                % ', '.join(short(v) if v is not None else 'none' for v in vals[:2]))
+        key = keys.pop()
+        v = vals[0]
         want = 'infty_val_fact' if (used & {'fact', 'factorial'}) else 'infty_val'
         if key != want:
-            bad = (sorted(used), key or (short(v) if v is not None else 'unset'), want)
+            bad = (sorted(used), key, want)
             break
     if bad:
         r.violation(construct, "when the used functions are %s the cutoff is config[%r], the property needs config[%r]: %s"
@@ -1428,6 +1447,8 @@ def _shared(fe, e, summaries, stack=()):
     if isinstance(e, ast.Name):
         if e.id in stack:
             return False
+        if e.id in summaries.get('$names', {}):
+            return summaries['$names'][e.id]
         return any(_shared(fe, v, summaries, stack + (e.id,)) for kind, v in fe.assignments.get(e.id, []))
     return False
 
@@ -1437,14 +1458,24 @@ def d5_pure(ctx, idx):
                  "evaluator() (the process-wide parser cache) is modified in place", floor=4)
     with r:
         from ..effects import FunctionEffects
-        summaries = {}
         glf = idx.func(SB + '.get_limits_and_funcs')
-        fe = FunctionEffects(glf, idx)
+        fe0 = FunctionEffects(glf, idx)
         rets = lib.returns_of(glf.node)
-        summaries['get_limits_and_funcs'] = any(x.value is not None and _shared(fe, x.value, {}) for x in rets)
+        # which positions of the returned tuple are parser-owned (numbers are immutable, only containers matter)
+        positions = None
+        if len(rets) == 1 and isinstance(rets[0].value, ast.Tuple):
+            positions = [_shared(fe0, x, {}) and i == 2 for i, x in enumerate(rets[0].value.elts)]
         for q in (SB + '.get_limits_and_funcs', SG + '.evaluate_sum', SG + '.gen_evaluations', SB + '.raw_check'):
             fi = idx.func(q)
             fe = FunctionEffects(fi, idx)
+            names = {}
+            for st_, b_ in X.find_stmts(fi.node, "_T = self.get_limits_and_funcs(*__)"):
+                t = st_.targets[0]
+                if isinstance(t, ast.Tuple) and positions is not None and len(t.elts) == len(positions):
+                    for el, sh in zip(t.elts, positions):
+                        if isinstance(el, ast.Name):
+                            names[el.id] = sh
+            summaries = {'get_limits_and_funcs': bool(positions and any(positions)), '$names': names}
             bad = [m for m in fe.direct_mutations() if _shared(fe, m.target, summaries)]
             name = q.split('.')[-1]
             construct = '%s: no in-place modification of parser-owned objects' % name
@@ -1458,8 +1489,8 @@ def d5_pure(ctx, idx):
                             expected='a fresh set, e.g. a.union(b, c)')
             else:
                 r.ok(construct, '%d mutation sites, none on a parser-owned object' % len(fe.direct_mutations()), fi.loc)
-        if summaries['get_limits_and_funcs']:
-            r.note('get_limits_and_funcs returns a parser-owned object; callers are checked against that')
+        if positions and any(positions):
+            r.note('get_limits_and_funcs returns a parser-owned set of used functions; callers are checked against that')
 
 
 # ------------------------------------------------------------------------ self-test
@@ -1529,6 +1560,8 @@ MUTANTS = [
 ]
 
 BENIGN = [
+    Benign('cutoff-key-selected-first', IG, "        if 'fact' in used_funcs or 'factorial' in used_funcs:\n            infty_val = self.config['infty_val_fact']\n        else:\n            infty_val = self.config['infty_val']\n",
+           "        infty_key = 'infty_val'\n        if any(name in used_funcs for name in ('fact', 'factorial')):\n            infty_key = 'infty_val_fact'\n        infty_val = self.config[infty_key]\n"),
     Benign('function-set-built-from-a-copy', IG, "        used_funcs = lower_used.functions_used.union(upper_used.functions_used, expression_used.functions_used)\n",
            "        used_funcs = set(expression_used.functions_used)\n        used_funcs.update(lower_used.functions_used, upper_used.functions_used)\n"),
     Benign('limit-checks-in-a-loop', IG, "        if abs(lower) != float('inf') and int(lower) != lower:\n            raise SummationError('Lower summation limit does not evaluate to an integer.')\n        if abs(upper) != float('inf') and int(upper) != upper:\n            raise SummationError('Upper summation limit does not evaluate to an integer.')\n",
